@@ -198,6 +198,10 @@ def parse_type(q):
     if q0 in TYPEDEFS:
         t, r2, c2 = parse_type(TYPEDEFS[q0])
         return t, is_ref or r2, is_const or c2
+    mq = re.match(r'^Eigen::(?:Quaternion|AngleAxis)<\s*(double|float)\b', q0)
+    if mq or q0 in ('Eigen::Quaterniond', 'Eigen::Quaternionf', 'Eigen::AngleAxisd', 'Eigen::AngleAxisf'):
+        st = ('float', 64 if (mq.group(1) if mq else ('double' if q0.endswith('d') else 'float')) == 'double' else 32)
+        return ('eig', st, 4, 1), is_ref, is_const     # quaternion coefficients (x, y, z, w) as Eigen stores them; AngleAxis only as the quaternion it converts to
     if q0 in ('Eigen::Affine3d', 'Eigen::Isometry3d') or q0.startswith('Eigen::Transform<double, 3,'):
         return ('eig', ('float', 64), 4, 4), is_ref, is_const     # Affine3d modelled as its 4x4 homogeneous matrix
     name, targs = template_parts(q0)
@@ -2373,6 +2377,10 @@ class FnTranslator:
             if name == 'min':
                 return ('cond', ('bin', '<', b, a, ('bool',)), b, a, t)
             return ('cond', ('bin', '<', a, b, ('bool',)), b, a, t)
+        if name == 'clamp' and len(args) == 3 and not self.is_repo_decl(callee) and is_scalar(t):
+            v, lo, hi = [self.expr(x) for x in args]
+            self.rule('std::clamp(v, lo, hi) -> (v < lo) ? lo : (hi < v) ? hi : v')
+            return ('cond', ('bin', '<', v, lo, ('bool',)), lo, ('cond', ('bin', '<', hi, v, ('bool',)), hi, v, t), t)
         if name in ('move', 'forward'):
             return self.expr(args[0]) if is_scalar(t) or t[0] == 'string' else self.lvalue(args[0])
         if name == 'exchange' and len(args) == 2 and not self.is_repo_decl(callee):
@@ -2443,10 +2451,72 @@ class FnTranslator:
         return e
 
     # -- Eigen-valued expressions -------------------------------------------------------
+    def qkind(self, n):
+        q = node_type(self.strip(n))
+        return 'aa' if 'AngleAxis<' in q or 'AngleAxisd' in q or 'AngleAxisf' in q else ('quat' if 'Quaternion<' in q or 'Quaterniond' in q or 'Quaternionf' in q else None)
+
+    def quat_to_rot(self, qv):
+        """Eigen::QuaternionBase::toRotationMatrix() as Eigen writes it (assumed contract of the dependency)"""
+        st = qv.st
+        x, y, z, w = (qv.get(i, 0) for i in range(4))
+        two = ('const', st, 2)
+        m = lambda a, b: ('bin', '*', a, b, st)
+        ad = lambda a, b: ('bin', '+', a, b, st)
+        sb = lambda a, b: ('bin', '-', a, b, st)
+        one = ('const', st, 1)
+        tx, ty, tz = m(two, x), m(two, y), m(two, z)
+        twx, twy, twz = m(tx, w), m(ty, w), m(tz, w)
+        txx, txy, txz = m(tx, x), m(ty, x), m(tz, x)
+        tyy, tyz, tzz = m(ty, y), m(tz, y), m(tz, z)
+        R = [[sb(one, ad(tyy, tzz)), sb(txy, twz), ad(txz, twy)],
+             [ad(txy, twz), sb(one, ad(txx, tzz)), sb(tyz, twx)],
+             [sb(txz, twy), ad(tyz, twx), sb(one, ad(txx, tyy))]]
+        self.rule('Eigen::Quaternion toRotationMatrix() / Matrix3(quaternion) -> Eigen\'s formula (assumed contract)')
+        return EigVal(st, 3, 3, lambda i, j: R[i][j])
+
+    def eig_quat(self, n):
+        """AngleAxis / Quaternion valued expressions: AngleAxis(a, axis) is carried as the quaternion it converts to,
+        products are Hamilton products (Eigen's operator* for Quaternion*Quaternion, AngleAxis*AngleAxis, Quaternion*AngleAxis)"""
+        k = n['kind']
+        if k in ('CXXConstructExpr', 'CXXTemporaryObjectExpr', 'CXXFunctionalCastExpr') and self.qkind(n) == 'aa':
+            args = [a for a in self.inner(n) if self.strip(a)['kind'] != 'CXXDefaultArgExpr']
+            if len(args) == 2 and is_scalar(self.T(args[0])):
+                ang = self.expr(args[0]); ax = self.eig(args[1])
+                st = ax.st
+                half = ('bin', '*', ('const', st, '0.5'), ang, st)
+                sn, cs = ('call', 'sin', [half], st), ('call', 'cos', [half], st)
+                self.rule('Eigen::AngleAxis(angle, axis) -> quaternion (sin(angle/2) axis, cos(angle/2)) (assumed contract of the conversion)')
+                return EigVal(st, 4, 1, lambda i, j: ('bin', '*', sn, ax.get(i, 0), st) if i < 3 else cs)
+        if k == 'CXXOperatorCallExpr' and self.opname(n) == '*':
+            args = self.inner(n)[1:]
+            if len(args) == 2 and self.qkind(args[0]) and self.qkind(args[1]):
+                a, b = self.eig(args[0]), self.eig(args[1])
+                st = a.st
+                ax, ay, az, aw = (a.get(i, 0) for i in range(4))
+                bx, by, bz, bw = (b.get(i, 0) for i in range(4))
+                m = lambda u, v: ('bin', '*', u, v, st)
+                ad = lambda u, v: ('bin', '+', u, v, st)
+                sb = lambda u, v: ('bin', '-', u, v, st)
+                prod = [sb(ad(ad(m(aw, bx), m(ax, bw)), m(ay, bz)), m(az, by)),
+                        sb(ad(ad(m(aw, by), m(ay, bw)), m(az, bx)), m(ax, bz)),
+                        sb(ad(ad(m(aw, bz), m(az, bw)), m(ax, by)), m(ay, bx)),
+                        sb(sb(sb(m(aw, bw), m(ax, bx)), m(ay, by)), m(az, bz))]
+                self.rule('Eigen quaternion product (Hamilton product, also for AngleAxis operands)')
+                return EigVal(st, 4, 1, lambda i, j: prod[i])
+        return None
+
     def eig(self, n):
         n = self.strip(n)
         k = n['kind']
         t = self.T(n)
+        if self.qkind(n):
+            r = self.eig_quat(n)
+            if r is not None:
+                return r
+        if k in ('CXXConstructExpr', 'CXXTemporaryObjectExpr', 'CXXFunctionalCastExpr') and t[0] == 'eig' and t[2] == 3 and t[3] == 3:
+            qa = [a for a in self.inner(n) if self.strip(a)['kind'] != 'CXXDefaultArgExpr']
+            if len(qa) == 1 and self.qkind(qa[0]) == 'quat':
+                return self.quat_to_rot(self.eig(qa[0]))
         if k in ('DeclRefExpr', 'MemberExpr'):
             lv = self.lvalue(n)
             return self.eig_of_lv(lv, t)
@@ -2561,6 +2631,12 @@ class FnTranslator:
             callee = self.callee_decl(n)
             name = callee.get('referencedDecl', {}).get('name', '') if callee['kind'] == 'DeclRefExpr' else callee.get('name', '')
             args = self.inner(n)[1:]
+            if name in ('UnitX', 'UnitY', 'UnitZ', 'UnitW') and not args:
+                if t[0] != 'eig':
+                    t = self.shape_from_str(node_type(n), n)
+                ku = 'XYZW'.index(name[-1])
+                self.rule('eigen: UnitX/Y/Z()')
+                return EigVal(t[1], t[2], t[3], lambda i, j: ('const', t[1], 1 if max(i, j) == ku else 0))
             if name in ('Zero', 'Ones', 'Identity', 'Constant'):
                 if t[0] != 'eig':
                     t = self.shape_from_str(node_type(n), n)
@@ -2729,6 +2805,8 @@ class FnTranslator:
                 k1, k2 = (k + 1) % 3, (k + 2) % 3
                 return ('bin', '-', ('bin', '*', ga(k1), gb(k2), a.st), ('bin', '*', ga(k2), gb(k1), a.st), a.st)
             return EigVal(a.st, a.rows, a.cols, cr)
+        if name == 'toRotationMatrix' and a.rows == 4 and a.cols == 1:
+            return self.quat_to_rot(a)
         if name == 'normalized':
             nrm = ('call', 'sqrt', [self._fold_sq(a)], a.st)
             return EigVal(a.st, a.rows, a.cols, lambda i, j: ('bin', '/', a.get(i, j), nrm, a.st))
